@@ -153,9 +153,18 @@ func (v recVerifier) Verify(msg, sig []byte) bool {
 	return ok
 }
 
+// impostor is a verifier with a known key's name and hash that accepts nothing.
+type impostor struct{ k keySpec }
+
+func (v impostor) Name() string                { return v.k.Name }
+func (v impostor) KeyHash() uint32             { return v.k.hash() }
+func (v impostor) Verify(msg, sig []byte) bool { return false }
+
 // ---- generators
 
-var names = []string{"a", "b", "sum.golang.org", "localhost.localdev/sumdb", "PeterNeumann", "é", "x/y", "—"}
+var names = []string{"a", "b", "sum.golang.org", "localhost.localdev/sumdb", "PeterNeumann", "é", "x/y", "—",
+	// valid names with code points that careless scanners trip over: replacement character, em dashes, BOM, NBSP is a space (invalid) so not here
+	"key\ufffd", "\ufffd", "—acme", "——", "a—b", "\ufeffbom", "日本", "ｆｕｌｌ"}
 var badNames = []string{"", "a b", "a+b", "a\tb", "a b", "a\nb", "\xff"}
 
 var textLines = []string{"replacement \ufffd", "del \x7f", "c1 \u0085 \u009b", "sep \u2028", "bom \ufeff", "hello", "", "— a AAAAAAE=", "— PeterNeumann x08go/ZJkuBS9UG/SffcvIAQxVBtiFupLLr8pAcElZInNIuGUgYN1FFYC2pZSNXgKvqfqdngotpRZb6KE6RyyBwJnAM=", "go.sum database tree", "42", "é日本語", " ", "—", "— ", "x\ty", "x\x00", "\xff\xfe", "a\rb", "If you think cryptography is the answer to your problem,", "— b AAAAAAA="}
@@ -614,6 +623,46 @@ func check(c noteCase) pbt.Result {
 	if gotClass != ref.OK && got != nil {
 		r.Fail = pbt.Failf("note-with-error", "Open returned both a note and an error")
 		return r
+	}
+	// Nothing learnt in one Open may carry over to the next: open the same bytes again (every listed
+	// signature must again have been checked in that call), and once more with impostors, verifiers of
+	// the same names and key hashes that accept nothing.
+	if gotClass == ref.OK {
+		var log2 []call
+		var vs2, imp []note.Verifier
+		for _, v := range vs {
+			rv := v.(recVerifier)
+			rv.log = &log2
+			vs2 = append(vs2, rv)
+			imp = append(imp, impostor{rv.k})
+		}
+		got2, err2 := note.Open(msg, note.VerifierList(vs2...))
+		if err2 != nil || got2 == nil || got2.Text != got.Text || !sigsEqual(got2.Sigs, want.Sigs) {
+			r.Fail = pbt.Failf("second-open-differs", "opening the same message twice with the same verifiers gave different results (second: %v)", err2)
+			return r
+		}
+		for _, s := range got2.Sigs {
+			found := false
+			for _, cl := range log2 {
+				if cl.key.Name == s.Name && cl.key.hash() == s.Hash && cl.result && string(cl.msg) == got2.Text {
+					found = true
+				}
+			}
+			if !found {
+				r.Fail = pbt.Failf("listed-but-not-verified", "second Open of the same message: signature by %s+%08x is listed as verified but its verifier was not called in this Open", s.Name, s.Hash)
+				return r
+			}
+		}
+		wantImp := ref.Open(msg, func(name string, hash uint32) (int, func(text, sig []byte) bool) {
+			cnt, _ := lookup(name, hash)
+			return cnt, func(text, sig []byte) bool { return false }
+		})
+		_, err3 := note.Open(msg, note.VerifierList(imp...))
+		if c3 := classify(err3); c3 != modelClass(wantImp.Class) {
+			r.Fail = pbt.Failf("impostor-open", "after a successful Open, opening the same message with verifiers of the same names and key hashes that reject everything gave %q (err=%v), documented behaviour gives %q", c3, err3, wantImp.Class)
+			return r
+		}
+		r.Classes = append(r.Classes, "reopened with impostors")
 	}
 
 	// Direct statements (not via the model) for an unmodified signed message of valid text.
